@@ -10,6 +10,7 @@ ok=0; bad=0
 for d in /verif/seeded/C*; do
   id=$(basename $d)
   chk=$(python3 -c "import json,re;print(re.split(r'[ ,]+',json.load(open('$d/meta.json'))['caught_by'])[0])")
+  [ "$chk" = "none" ] && { echo "$id: recorded as not decided (skipped)"; continue; }
   cd $R && git checkout -q -- . && git apply $d/patch.diff 2>/dev/null || { echo "$id: PATCH-FAILS"; bad=$((bad+1)); continue; }
   out=$(cd $V && VERIF_REPO=$R VERIF_DIR=$V timeout 2400 ./check $chk quick 2>&1)
   if echo "$out" | grep -q "^VIOLATION property=$chk"; then ok=$((ok+1)); echo "$id: flagged by $chk"; else bad=$((bad+1)); echo "$id: NOT FLAGGED by $chk :: $(echo "$out" | grep -E 'INCONC|BROKEN|quick:' | head -2 | cut -c1-160)"; fi
